@@ -276,6 +276,24 @@ func candidates(s *scn.Scenario, stage int) []*scn.Scenario {
 		if s.Cfg.PoolMode != 0 {
 			add(func(c *scn.Scenario) { c.Cfg.PoolMode = 0 })
 		}
+		if s.Cfg.NS {
+			add(func(c *scn.Scenario) { c.Cfg.NS, c.Cfg.NSSwap, c.Cfg.NSRebind = false, false, false })
+		}
+		if s.Cfg.NSSwap {
+			add(func(c *scn.Scenario) { c.Cfg.NSSwap = false })
+		}
+		if s.Cfg.NSRebind {
+			add(func(c *scn.Scenario) { c.Cfg.NSRebind = false })
+		}
+		if s.Cfg.Must {
+			add(func(c *scn.Scenario) { c.Cfg.Must = false })
+		}
+		if s.Cfg.Pristine {
+			add(func(c *scn.Scenario) { c.Cfg.Pristine = false })
+		}
+		if s.Cfg.Preempts != 0 && s.Cfg.Strategy != "pct" {
+			add(func(c *scn.Scenario) { c.Cfg.Preempts = 0 })
+		}
 		if s.Cfg.LoadSlow != 0 {
 			add(func(c *scn.Scenario) { c.Cfg.LoadSlow = 0 })
 		}
